@@ -223,6 +223,101 @@ theorem no_raise_v (doc : Doc) (defs : List (List VarDef)) (vars : Vars) (hv : V
     ∃ errs, ruleV doc.fuel limit filter doc defs vars = .ok errs :=
   ⟨_, ruleV_eq_expected doc defs vars hv limit filter doc.fuel (Nat.le_refl _)⟩
 
+/-! ### validity, declaratively: what the default validation rules guarantee -/
+
+/-- UniqueFragmentNames + NoFragmentCycles (a rank decreasing along spreads of defined fragments) +
+    NoUndefinedVariables/coercion (every directive variable has a value). No computed check, no fuel. -/
+def ValidDecl (doc : Doc) (vars : Vars) : Prop :=
+  UniqueNames doc.frags ∧ Acyclic doc.frags ∧ VarsBound vars doc
+
+theorem valid_of_decl {doc : Doc} {vars : Vars} (h : ValidDecl doc vars) : Valid doc vars :=
+  ⟨acyclic_complete doc.frags h.1 h.2.1, h.2.2⟩
+
+/-- under unique fragment names the two notions coincide -/
+theorem valid_iff_decl (doc : Doc) (vars : Vars) (hu : UniqueNames doc.frags) : Valid doc vars ↔ ValidDecl doc vars :=
+  ⟨fun h => ⟨hu, acyclic_sound doc.frags h.1, h.2⟩, valid_of_decl⟩
+
+def ValidDeclV (doc : Doc) (defs : List (List VarDef)) (vars : Vars) : Prop :=
+  UniqueNames doc.frags ∧ Acyclic doc.frags ∧ ∀ i op, doc.ops[i]? = some op →
+    boundL (effectiveVars (defs.getD i []) vars) op.sels = true ∧
+    ∀ f ∈ doc.frags, boundL (effectiveVars (defs.getD i []) vars) f.sels = true
+
+theorem validV_of_decl {doc : Doc} {defs : List (List VarDef)} {vars : Vars} (h : ValidDeclV doc defs vars) :
+    ValidV doc defs vars :=
+  ⟨acyclic_complete doc.frags h.1 h.2.1, h.2.2⟩
+
+/-! ### the property's first sentence, over the pipeline -/
+
+/-- **pipeline_rejects_iff** — `graphql_blocking(schema, doc, variables, validators=[default_validator,
+    MaxDepthValidationRule(n, operation_name=filter)])` on a validated request: nothing is raised, and the
+    request is rejected with a depth error IFF some operation selected by the filter has a specified depth,
+    under ITS coerced variables, greater than `n` — for every `n ≥ 0` (0 included), every filter, whatever
+    the default validator reports. -/
+theorem pipeline_rejects_iff (doc : Doc) (defs : List (List VarDef)) (vars : Vars) (hv : ValidDeclV doc defs vars)
+    (n : Nat) (filter : Option String) (defaultErrors : Nat) :
+    (∀ e, pipeline doc.fuel n filter doc defs vars defaultErrors ≠ .raised e) ∧
+    ((pipeline doc.fuel n filter doc defs vars defaultErrors).depthRejected = true ↔
+      ∃ i op, doc.ops[i]? = some op ∧ opSelected filter op = true ∧ depthV doc defs vars i op > n) ∧
+    (pipeline doc.fuel n filter doc defs vars defaultErrors = .executed ↔
+      defaultErrors = 0 ∧ ∀ i op, doc.ops[i]? = some op → opSelected filter op = true → depthV doc defs vars i op ≤ n) := by
+  have hV := validV_of_decl hv
+  have he := ruleV_eq_expected doc defs vars hV n filter doc.fuel (Nat.le_refl _)
+  have hmem := mem_expected (depthV doc defs vars) n filter doc.ops 0
+  -- the error list is empty iff no selected operation is too deep
+  have hempty : expected (depthV doc defs vars) n filter 0 doc.ops = [] ↔
+      ∀ i op, doc.ops[i]? = some op → opSelected filter op = true → depthV doc defs vars i op ≤ n := by
+    constructor
+    · intro h i op hi hs
+      by_cases hd : depthV doc defs vars i op > n
+      · have := (hmem i _).mpr ⟨op, by omega, by simpa using hi, hs, hd, rfl⟩
+        rw [h] at this; cases this
+      · omega
+    · intro h
+      cases hx : expected (depthV doc defs vars) n filter 0 doc.ops with
+      | nil => rfl
+      | cons x xs =>
+        obtain ⟨j, d⟩ := x
+        have : (j, d) ∈ expected (depthV doc defs vars) n filter 0 doc.ops := by rw [hx]; simp
+        obtain ⟨op, _, h2, h3, h4, _⟩ := (hmem j d).mp this
+        have := h j op (by simpa using h2) h3
+        omega
+  refine ⟨?_, ?_, ?_⟩
+  · intro e
+    simp only [pipeline, he]
+    split <;> simp
+  · simp only [pipeline, he]
+    constructor
+    · intro h
+      by_cases hnil : expected (depthV doc defs vars) n filter 0 doc.ops = []
+      · rw [hnil] at h
+        split at h <;> simp [Outcome.depthRejected] at h
+      · by_cases hex : ∃ i op, doc.ops[i]? = some op ∧ opSelected filter op = true ∧ depthV doc defs vars i op > n
+        · exact hex
+        · exfalso
+          apply hnil
+          apply hempty.mpr
+          intro i op hi hs
+          by_cases hd : depthV doc defs vars i op ≤ n
+          · exact hd
+          · exact absurd ⟨i, op, hi, hs, by omega⟩ hex
+    · rintro ⟨i, op, hi, hs, hd⟩
+      have hne : expected (depthV doc defs vars) n filter 0 doc.ops ≠ [] := by
+        intro h
+        have := hempty.mp h i op hi hs
+        omega
+      cases hx : expected (depthV doc defs vars) n filter 0 doc.ops with
+      | nil => exact absurd hx hne
+      | cons x xs => simp [Outcome.depthRejected]
+  · simp only [pipeline, he]
+    constructor
+    · intro h
+      split at h
+      · rename_i hc
+        exact ⟨hc.1, hempty.mp hc.2⟩
+      · cases h
+    · rintro ⟨h0, hall⟩
+      rw [if_pos ⟨h0, hempty.mpr hall⟩]
+
 /-! ### headline theorems -/
 
 /-- **flags_iff** — an error is reported for the operation at index `i` exactly when it is selected
@@ -269,6 +364,21 @@ theorem name_filter (doc : Doc) (vars : Vars) (hv : Valid doc vars) (limit : Nat
 /-- the filter `none` (and `""`, which Python treats as falsy) selects every operation -/
 theorem no_filter_selects_all (op : Op) : opSelected none op = true ∧ opSelected (some "") op = true := by
   simp [opSelected]
+
+/-- `flags_iff` / `no_raise` with the declarative hypothesis only -/
+theorem flags_iff_validated (doc : Doc) (vars : Vars) (hv : ValidDecl doc vars) (limit : Nat) (filter : Option String) :
+    ∃ errs, rule doc.fuel limit filter doc vars = .ok errs ∧
+      ∀ (i : Nat) (op : Op), doc.ops[i]? = some op →
+        ((∃ d, (i, d) ∈ errs) ↔ (opSelected filter op = true ∧ depth doc vars op > limit)) := by
+  obtain ⟨errs, he, h⟩ := flags_iff doc vars (valid_of_decl hv) limit filter
+  exact ⟨errs, he, fun i op hi => (h i op hi).1⟩
+
+theorem flags_iff_v_validated (doc : Doc) (defs : List (List VarDef)) (vars : Vars) (hv : ValidDeclV doc defs vars)
+    (limit : Nat) (filter : Option String) :
+    ∃ errs, ruleV doc.fuel limit filter doc defs vars = .ok errs ∧
+      ∀ (i : Nat) (op : Op), doc.ops[i]? = some op →
+        ((∃ d, (i, d) ∈ errs) ↔ (opSelected filter op = true ∧ depthV doc defs vars i op > limit)) :=
+  flags_iff_v doc defs vars (validV_of_decl hv) limit filter
 
 /-! ### wrapping never lowers the depth -/
 
